@@ -33,9 +33,12 @@ def payload_cell(P, A):
     ids = [A['s%d' % i] for i in range(N)]
     c0, c1 = A['c0'], A['c1']
     new_ids = [A['n%d' % i] for i in range(k)]
+    dec_ids = (new_ids[0], new_ids[-1])
+    if P.get('blank_new') is not None:
+        new_ids[P['blank_new']] = None        # a carried element whose ID tag is blank arrives like that
     if level == 'story':
         stories = [B.story(s, slug='ss', timing=B.timing_block(dur='10'),
-                           body=[T('p', 'x'), B.item('I', extra=B.decoys(new_ids[0], new_ids[-1]))])
+                           body=[T('p', 'x'), B.item('I', extra=B.decoys(*dec_ids))])
                    for s in ids]
         ro = B.running_order(stories, lead=2, gap=P.get('gap'), trail=P.get('trail', 0))
         if P.get('prehist'):
